@@ -60,7 +60,8 @@ package home
 
 //@ func (ab *authRateLimiter) inc(usrID string)
 //@   property C12
-//@   requires ab.failedAuths != nil && !held(ab.failedAuthsLock)
+//@   requires ab.failedAuths != nil
+//@   requires !held(ab.failedAuthsLock)
 //@   requires usrID in ab.failedAuths ==> ab.failedAuths[usrID].num < 18446744073709551615
 //@   modifies entries(ab.failedAuths), lastNow
 //@   ensures !held(ab.failedAuthsLock)
@@ -110,6 +111,34 @@ package home
 //@   modifies *
 //@ func handleServiceUninstallCommand(s service.Service)
 //@   property C14
+//@   modifies *
+
+// ---- C16: the DNS server is reconfigured with the TLS settings just accepted (server name included) ----
+// tlsConfGen counts the stores of new TLS settings; the reconfiguration of the DNS server reads the stored settings, so
+// the store has to come first - otherwise the server keeps deriving ClientIDs from the previous server name.
+//@ ghost var tlsConfGen int
+//@ func (m *tlsManager) setConfig(ctx context.Context, newConf tlsConfigSettings, status *tlsConfigStatus, servePlain aghalg.NullBool) (restartHTTPS bool)
+//@   property C16
+//@   ghost at return: tlsConfGen = tlsConfGen + 1
+//@   modifies *
+//@ func (m *tlsManager) handleTLSConfigure(w http.ResponseWriter, r *http.Request)
+//@   property C16
+//@   callsites-only
+//@   callsite (*github.com/AdguardTeam/AdGuardHome/internal/home.tlsManager).reconfigureDNSServer(m2) requires new-settings-stored-first: tlsConfGen == old(tlsConfGen) + 1
+//@   modifies *
+
+// ---- C17: the configuration loader hands the filter exactly the safe patterns of the file ----
+// (validation repairs the update interval and nothing else: in particular it does not invent patterns when none are configured)
+//@ func validateBindHosts(conf *configuration) (err error)
+//@   pure-function
+//@   modifies nothing
+//@ func addPorts(uc aghalg.UniqChecker[T], ports []T)
+//@   trusted
+//@   modifies entries(uc)
+//@ func validateConfig() (err error)
+//@   property C17
+//@   requires config != nil && config.Filtering != nil
+//@   ensures patterns-as-configured: config.Filtering.SafeFSPatterns == old(config.Filtering.SafeFSPatterns)
 //@   modifies *
 
 // ---- C11: every admin endpoint behind authentication ----
@@ -308,7 +337,7 @@ package home
 //@   ghost at return: lastSessRes = res
 
 //@ func (a *Auth) removeSession(sess string)
-//@   property C12
+//@   property C12, C11
 //@   requires !held(a.lock)
 //@   modifies *
 //@   callsite (*github.com/AdguardTeam/AdGuardHome/internal/home.Auth).removeSessionFromFile(a2, key) requires key == hex.DecodeString(sess0)
@@ -341,12 +370,19 @@ package home
 //@ func handleLogin(w http.ResponseWriter, r *http.Request)
 //@   property C12
 //@   requires globalContext.auth != nil && (globalContext.auth.rateLimiter != nil ==> !held(globalContext.auth.rateLimiter.failedAuthsLock))
+//@   requires !held(globalContext.auth.lock)
 //@   modifies *
 //@   callsite (*github.com/AdguardTeam/AdGuardHome/internal/home.authRateLimiter).check(ab, usrID) requires usrID == netutil.SplitHost(r.RemoteAddr)
 //@   callsite (*github.com/AdguardTeam/AdGuardHome/internal/home.Auth).newCookie(a, req, addr) requires addr == netutil.SplitHost(r.RemoteAddr) && (a.rateLimiter == nil || (lastCheckKey == addr && lastCheckLeft <= 0))
 
+// The failure counter is advanced, and cleared, under the very key handleLogin checked (the address it was given).
 //@ func (a *Auth) newCookie(req loginJSON, addr string) (c *http.Cookie, err error)
-//@   trusted
+//@   property C12
+//@   callsites-only
+//@   requires !held(a.lock)
+//@   requires a.rateLimiter != nil ==> !held(a.rateLimiter.failedAuthsLock)
+//@   callsite (*github.com/AdguardTeam/AdGuardHome/internal/home.authRateLimiter).inc(ab, id) requires counted-under-the-checked-key: id == addr0
+//@   callsite (*github.com/AdguardTeam/AdGuardHome/internal/home.authRateLimiter).remove(ab, id) requires cleared-under-the-checked-key: id == addr0
 //@   modifies nothing
 
 // ---- C05: lock discipline (ghost lock state; every access to a guarded field in the package is an obligation) ----
@@ -358,6 +394,13 @@ package home
 //@ func (a *Auth) loadSessions()
 //@   construction
 //@   modifies *
+//@ func (s *session) deserialize(data []byte) (r0 bool)
+//@   property C12
+//@   modifies s.expire, s.userName
+// Every session loaded at start-up is an object of its own (two tokens sharing one record would share its expiry and user).
 //@ func (a *Auth) loadSessions$2(k []byte, v []byte) (r0 error)
+//@   property C12
 //@   construction
+//@   requires a.sessions != nil
+//@   ensures own-record: forall t string :: (t in a.sessions) && a.sessions[t] != old(a.sessions[t]) ==> fresh(a.sessions[t])
 //@   modifies *
